@@ -26,7 +26,7 @@ def seq_chanclose(rep, rng, lines, expect):
     conn = amqpstorm.Connection('localhost', 'guest', 'guest', lazy=True)
     conn_closed = rng.random() < 0.15
     conn.set_state(0 if conn_closed else 3)
-    state = rng.choice([3, 3, 3, 3, 0])
+    state = rng.choice([3, 3, 3, 3, 0, 1, 1, 2])
     tags = ['t%d' % i for i in range(rng.choice([0, 0, 1, 2, 3, 4, 5]))]
     end = rng.choice(['ok', 'ok', 'timeout', 'conn'])
     code, text = rng.choice([200, 200, 320, 404]), rng.choice(['', 'bye', 'going-away'])
@@ -83,6 +83,8 @@ def seq_chanclose(rep, rng, lines, expect):
             rep.violation('C11/close-not-last', 'frames after Channel.Close: %r' % (written,), replay)
     elif state == 0 and written:
         rep.violation('C11/sent-on-closed-channel', 'close() on a closed channel wrote %r' % (written,), replay)
+    elif state in (1, 2) and closes:
+        rep.violation('C11/close-sent-on-closing-channel', 'close() on a channel in state %d (another close is in progress) sent %r' % (state, closes), replay)
     if ch.current_state != 0 or ch.consumer_tags or ch._inbound:
         rep.violation('C11/not-closed-after-close', 'after close(): state=%d tags=%d inbound=%d' % (
             ch.current_state, len(ch.consumer_tags), len(ch._inbound)), replay)
